@@ -11,9 +11,9 @@ use serde_json::json;
 use crate::interp::{self, Body, Flavour};
 use crate::report::{Report, Viol};
 use crate::rt::{self, Act, FaultSpec, Mode, Policy, Violation};
-use crate::seq::{self, par_cases, SeqCtl};
+use crate::seq::{self, par_cases};
 use crate::seqchecks::{apply_assignment, assignments, probe_specs, SpecInfo};
-use crate::spec::{Kind, Native, Spec, Target, World, KINDS};
+use crate::spec::{Kind, Native, Spec, World, KINDS};
 use crate::world::*;
 
 #[derive(Clone, Debug, serde::Serialize, serde::Deserialize)]
